@@ -107,12 +107,12 @@ def tokenize : List (List Nat) → Nat → List (List Nat × Nat)
 
 def runSymbol (run : Nat) : Nat := if run ≤ 4 then 256 + run - 1 else 256 + (lengthToSymbol run).1
 
-/-- `encode_frame`: the VP8L payload, or `none` for `InvalidDimensions` -/
-def encodeFrame (data : List Nat) (width height color : Nat) (usePredictor : Bool) : Option (Array Nat) :=
-  if width = 0 ∨ width > 16384 ∨ height = 0 ∨ height > 16384 then none else
-  let isColor := color ≥ 2
-  let isAlpha := color = 1 ∨ color = 3
-  let w := BW.empty
+/-- a sequence of `write_bits` calls -/
+def writeFields (w : BW) (ws : List (Nat × Nat)) : BW := ws.foldl (fun w x => w.write x.1 x.2) w
+
+/-- the header, the transform section and the three "no" bits that follow it (no further
+    transform, no colour cache, no meta prefix image) -/
+def writeHeader (w : BW) (width height : Nat) (isAlpha usePredictor : Bool) : BW :=
   let w := (((w.write 0x2f 8).write (width - 1) 14).write (height - 1) 14)
   let w := (w.write (if isAlpha then 1 else 0) 1).write 0 3
   let w := w.write 0b101 3
@@ -121,57 +121,89 @@ def encodeFrame (data : List Nat) (width height color : Nat) (usePredictor : Boo
       let w := writeSingle w 2
       (List.range 4).foldl (fun w _ => writeSingle w 0) w
     else w
-  let w := ((w.write 0 1).write 0 1).write 0 1
+  ((w.write 0 1).write 0 1).write 0 1
+
+/-- the pixels as they are entropy coded: expanded, green subtracted, predicted -/
+def residuals (data : List Nat) (width color : Nat) (usePredictor : Bool) : List (List Nat) :=
   let px := (expand color data).map subGreen
-  let px := if usePredictor then (predictForward width px.toArray).toList else px
+  if usePredictor then (predictForward width px.toArray).toList else px
+
+def addAt (a : Array Nat) (i : Nat) : Array Nat := a.modify i (· + 1)
+
+/-- the four histograms (red, green+lengths, blue, alpha) before any pixel is counted -/
+def initFreqs (color : Nat) : Array Nat × Array Nat × Array Nat × Array Nat :=
+  let f0 := if color ≤ 1 then addAt (Array.replicate 256 0) 0 else Array.replicate 256 0
+  (f0, Array.replicate 280 0, f0,
+    if color = 0 ∨ color = 2 then addAt (Array.replicate 256 0) 0 else Array.replicate 256 0)
+
+def countTok (isColor isAlpha : Bool) (acc : Array Nat × Array Nat × Array Nat × Array Nat) (t : List Nat × Nat) :
+    Array Nat × Array Nat × Array Nat × Array Nat :=
+  let p := t.1
+  let f0 := if isColor then addAt acc.1 (p.getD 0 0) else acc.1
+  let f1 := addAt acc.2.1 (p.getD 1 0)
+  let f2 := if isColor then addAt acc.2.2.1 (p.getD 2 0) else acc.2.2.1
+  let f3 := if isAlpha then addAt acc.2.2.2 (p.getD 3 0) else acc.2.2.2
+  let f1 := if t.2 > 0 then addAt f1 (runSymbol t.2) else f1
+  (f0, f1, f2, f3)
+
+/-- code lengths and code words of the four pixel alphabets -/
+structure Tabs where
+  l0 : Array Nat
+  c0 : Array Nat
+  l1 : Array Nat
+  c1 : Array Nat
+  l2 : Array Nat
+  c2 : Array Nat
+  l3 : Array Nat
+  c3 : Array Nat
+
+/-- the five prefix codes: green, red, blue, alpha, distance -/
+def writeTrees (w : BW) (color : Nat) (usePredictor : Bool) (f : Array Nat × Array Nat × Array Nat × Array Nat) : BW × Tabs :=
+  let z := Array.replicate 256 0
+  let t1 := writeHuffmanTree w f.2.1.toList
+  let t02 : BW × Array Nat × Array Nat × Array Nat × Array Nat :=
+    if color ≥ 2 then
+      let t0 := writeHuffmanTree t1.1 f.1.toList
+      let t2 := writeHuffmanTree t0.1 f.2.2.1.toList
+      (t2.1, t0.2.1, t0.2.2, t2.2.1, t2.2.2)
+    else (writeSingle (writeSingle t1.1 0) 0, z, z, z, z)
+  let t3 : BW × Array Nat × Array Nat :=
+    if color = 1 ∨ color = 3 then writeHuffmanTree t02.1 f.2.2.2.toList
+    else (writeSingle t02.1 (if usePredictor then 0 else 255), z, z)
+  (writeSingle t3.1 1,
+    { l0 := t02.2.1, c0 := t02.2.2.1, l1 := t1.2.1, c1 := t1.2.2, l2 := t02.2.2.2.1, c2 := t02.2.2.2.2, l3 := t3.2.1, c3 := t3.2.2 })
+
+/-- the literal of a token as the one packed `write_bits(bits, nbits)` call the encoder makes -/
+def litField (color : Nat) (tb : Tabs) (p : List Nat) : Nat × Nat :=
+  let g := p.getD 1 0
+  let r := p.getD 0 0
+  let b := p.getD 2 0
+  let a := p.getD 3 0
+  let len1 := tb.l1[g]!
+  match color with
+  | 0 => (tb.c1[g]!, len1)
+  | 1 => (tb.c1[g]! ||| (tb.c3[a]! <<< len1), len1 + tb.l3[a]!)
+  | 2 => (tb.c1[g]! ||| (tb.c0[r]! <<< len1) ||| (tb.c2[b]! <<< (len1 + tb.l0[r]!)), len1 + tb.l0[r]! + tb.l2[b]!)
+  | _ => (tb.c1[g]! ||| (tb.c0[r]! <<< len1) ||| (tb.c2[b]! <<< (len1 + tb.l0[r]!)) ||| (tb.c3[a]! <<< (len1 + tb.l0[r]! + tb.l2[b]!)),
+          len1 + tb.l0[r]! + tb.l2[b]! + tb.l3[a]!)
+
+/-- one token: the literal (one packed `write_bits` for all its code words), then the run -/
+def writeTok (color : Nat) (tb : Tabs) (w : BW) (t : List Nat × Nat) : BW :=
+  let w := w.write (litField color tb t.1).1 (litField color tb t.1).2
+  if t.2 = 0 then w
+  else if t.2 ≤ 4 then w.write tb.c1[256 + t.2 - 1]! tb.l1[256 + t.2 - 1]!
+  else
+    (w.write tb.c1[256 + (lengthToSymbol t.2).1]! tb.l1[256 + (lengthToSymbol t.2).1]!).write
+      ((t.2 - 1) % 2 ^ (lengthToSymbol t.2).2) (lengthToSymbol t.2).2
+
+/-- `encode_frame`: the VP8L payload, or `none` for `InvalidDimensions` -/
+def encodeFrame (data : List Nat) (width height color : Nat) (usePredictor : Bool) : Option (Array Nat) :=
+  if width = 0 ∨ width > 16384 ∨ height = 0 ∨ height > 16384 then none else
+  let w := writeHeader BW.empty width height (color = 1 ∨ color = 3) usePredictor
+  let px := residuals data width color usePredictor
   let toks := tokenize px px.length
-  -- frequencies
-  let add := fun (a : Array Nat) (i : Nat) => a.modify i (· + 1)
-  let f0 := Array.replicate 256 0
-  let f1 := Array.replicate 280 0
-  let f0 := if color ≤ 1 then add f0 0 else f0
-  let f2 := f0
-  let f3 := if color = 0 ∨ color = 2 then add (Array.replicate 256 0) 0 else Array.replicate 256 0
-  let (f0, f1, f2, f3) := toks.foldl (fun (acc : Array Nat × Array Nat × Array Nat × Array Nat) (t : List Nat × Nat) =>
-    let (f0, f1, f2, f3) := acc
-    let p := t.1
-    let f0 := if isColor then add f0 (p.getD 0 0) else f0
-    let f1 := add f1 (p.getD 1 0)
-    let f2 := if isColor then add f2 (p.getD 2 0) else f2
-    let f3 := if isAlpha then add f3 (p.getD 3 0) else f3
-    let f1 := if t.2 > 0 then add f1 (runSymbol t.2) else f1
-    (f0, f1, f2, f3)) (f0, f1, f2, f3)
-  let (w, l1, c1) := writeHuffmanTree w f1.toList
-  let (w, l0, c0, l2, c2) :=
-    if isColor then
-      let (w, l0, c0) := writeHuffmanTree w f0.toList
-      let (w, l2, c2) := writeHuffmanTree w f2.toList
-      (w, l0, c0, l2, c2)
-    else
-      let z := Array.replicate 256 0
-      (writeSingle (writeSingle w 0) 0, z, z, z, z)
-  let (w, l3, c3) :=
-    if isAlpha then writeHuffmanTree w f3.toList
-    else
-      let z := Array.replicate 256 0
-      (writeSingle w (if usePredictor then 0 else 255), z, z)
-  let w := writeSingle w 1
-  -- pixels
-  let w := toks.foldl (fun (w : BW) (t : List Nat × Nat) =>
-    let p := t.1
-    let (g, r, b, a) := (p.getD 1 0, p.getD 0 0, p.getD 2 0, p.getD 3 0)
-    let len1 := l1[g]!
-    let w := match color with
-      | 0 => w.write c1[g]! len1
-      | 1 => w.write (c1[g]! ||| (c3[a]! <<< len1)) (len1 + l3[a]!)
-      | 2 => w.write (c1[g]! ||| (c0[r]! <<< len1) ||| (c2[b]! <<< (len1 + l0[r]!))) (len1 + l0[r]! + l2[b]!)
-      | _ => w.write (c1[g]! ||| (c0[r]! <<< len1) ||| (c2[b]! <<< (len1 + l0[r]!)) ||| (c3[a]! <<< (len1 + l0[r]! + l2[b]!)))
-                (len1 + l0[r]! + l2[b]! + l3[a]!)
-    if t.2 = 0 then w
-    else if t.2 ≤ 4 then w.write c1[256 + t.2 - 1]! l1[256 + t.2 - 1]!
-    else
-      let (sym, extra) := lengthToSymbol t.2
-      (w.write c1[256 + sym]! l1[256 + sym]!).write ((t.2 - 1) % 2 ^ extra) extra) w
-  some w.flush
+  let f := toks.foldl (countTok (color ≥ 2) (color = 1 ∨ color = 3)) (initFreqs color)
+  let wt := writeTrees w color usePredictor f
+  some (toks.foldl (writeTok color wt.2) wt.1).flush
 
 end Enc
